@@ -137,3 +137,31 @@ package aspect_elimination
 //@   fnparam generator ensures 0.0 <= result && result < 1.0
 //@   ensures [heaviest_first] forall i int, j int :: 0 <= i && i < j && j < len(result) ==> result[i].Weight >= result[j].Weight
 //@   ensures [the_methods_criteria] len(result) == len(dmp.Criteria) && forall k int :: 0 <= k && k < len(result) ==> exists j int :: 0 <= j && j < len(dmp.Criteria) && result[k].Criterion == dmp.Criteria[j] && result[k].Weight == params.Weights[dmp.Criteria[j].Id]
+
+// ---- the method as a whole (C12, C01, C14): what is decoded is what is used, every considered alternative appears once
+//@ func (*AspectEliminationHeuristic).ParseParams
+//@   property C12 C14 C20 C01
+//@   ensures [decoded_parameters] typeis(result, AspectEliminationHeuristicParams)
+//@             && result.(AspectEliminationHeuristicParams).Function == (decoded_has(dm.MethodParameters, "Function") ? decoded_str(dm.MethodParameters, "Function") : "")
+//@             && result.(AspectEliminationHeuristicParams).RandomSeed == (decoded_has(dm.MethodParameters, "RandomSeed") ? decoded_int(dm.MethodParameters, "RandomSeed") : 0)
+//@             && result.(AspectEliminationHeuristicParams).RandomAlternativesOrdering == (decoded_has(dm.MethodParameters, "RandomAlternativesOrdering") && decoded_bool(dm.MethodParameters, "RandomAlternativesOrdering"))
+
+//@ func (*AspectEliminationHeuristic).Evaluate
+//@   property C12 C14 C01
+//@   requires [parameters] typeis(dmp.MethodParameters, AspectEliminationHeuristicParams)
+//@   requires [distinct_alternatives] distinctIds(dmp.ConsideredAlternatives)
+//@   returnhint [level_source_named_in_the_request] len(params.Function) > 0 && exists k int :: 0 <= k && k < len(a.functions) && satisfaction_levels.sourceName(a.functions[k]) == params.Function
+//@             && satisfactionLevels == satisfaction_levels.blankOf(a.functions[k]) && forall j int :: 0 <= j && j < k ==> satisfaction_levels.sourceName(a.functions[j]) != params.Function
+//@   returnhint [considered_alternatives_in_the_requested_order] len(*alternatives) == len(dmp.ConsideredAlternatives)
+//@             && (!params.RandomAlternativesOrdering ==> forall k int :: 0 <= k && k < len(dmp.ConsideredAlternatives) ==> (*alternatives)[k] == dmp.ConsideredAlternatives[k])
+//@   returnhint [criteria_by_the_requested_weights_heaviest_first] len(weights) == len(dmp.Criteria)
+//@             && (forall i int, j int :: 0 <= i && i < j && j < len(weights) ==> weights[i].Weight >= weights[j].Weight)
+//@             && (forall k int :: 0 <= k && k < len(weights) ==> exists j int :: 0 <= j && j < len(dmp.Criteria) && weights[k].Criterion == dmp.Criteria[j] && weights[k].Weight == params.Weights[dmp.Criteria[j].Id])
+//@   returnhint [survivors_first_then_the_eliminated] len(result) == len(dmp.ConsideredAlternatives) && len(leftToChoice) <= len(result)
+//@             && (forall k int :: 0 <= k && k < len(leftToChoice) ==> result[k].Alternative == leftToChoice[k] && result[k].Evaluation.(AspectEliminationEvaluation).ThresholdsIndex == thresholdIndex + 1)
+//@             && (forall k int :: len(leftToChoice) <= k && k < len(result) ==> failedOn(result[k].Alternative, weights, result[k].Evaluation.(AspectEliminationEvaluation).NotSatisfiedThreshold)
+//@                    && result[k].Evaluation.(AspectEliminationEvaluation).ThresholdsIndex <= thresholdIndex)
+//@   ensures [one_entry_per_considered_alternative] result != nil && len(*result) == len(dmp.ConsideredAlternatives)
+//@   ensures [entries_are_considered_alternatives] forall k int :: 0 <= k && k < len(*result) ==> exists j int :: 0 <= j && j < len(dmp.ConsideredAlternatives) && (*result)[k].Alternative == dmp.ConsideredAlternatives[j]
+//@   ensures [each_links_to_the_next] forall i int :: 0 <= i && i < len(*result) ==>
+//@             (i + 1 < len(*result) ? (len((*result)[i].BetterThanOrSameAs) == 1 && (*result)[i].BetterThanOrSameAs[0] == (*result)[i + 1].Alternative.Id) : len((*result)[i].BetterThanOrSameAs) == 0)
